@@ -752,6 +752,38 @@ void Engine<Policy>::do_decode() {
                 }
             }
         }
+        // the next cell of every definition, as the decoder left it (a fresh process starts with null cells)
+        for (auto& m : Policy::methods) {
+            for (auto& [k, r] : methods_) {
+                if (r.slot->info != &m) {
+                    continue;
+                }
+                std::ostringstream os;
+                os << "dnext " << k << " [";
+                const char* sep = "";
+                for (auto& spec : m.specs) {
+                    void* nx = spec.next ? *spec.next : nullptr;
+                    std::string s = "?";
+                    if (nx == nullptr) {
+                        s = "null";
+                    } else if (nx == m.ambiguous) {
+                        s = "A";
+                    } else if (nx == m.not_implemented) {
+                        s = "N";
+                    } else {
+                        for (auto& [j, def] : r.j_def) {
+                            if (r.slot->pool[j] == nx) {
+                                s = "d" + std::to_string(def);
+                            }
+                        }
+                    }
+                    os << sep << s;
+                    sep = ",";
+                }
+                os << "]";
+                emit(os.str());
+            }
+        }
         // the buffer stays alive: the decoded tables are now the installed ones
     }
 }
